@@ -825,9 +825,10 @@ func c06RunPaging(t *testing.T, run *verifkit.Run) {
 				if modified {
 					modS = "modified-during-scan"
 				}
-				run.Violation("C06:a:collection-missed:"+mutClass+":"+tie+":"+modS,
-					fmt.Sprintf("EachCollection returned nil but never handed %d of the %d collections that existed throughout the scan to the callback (first: %s); N=%d page=%d server_max=%d max_tie=%d mutations=%d",
-						len(missed), len(required), strings.TrimSuffix(u, pad), c.N, c.PageSize, c.ServerMax, c.MaxTie, len(muts)), witness(missed))
+				run.Violation("C06:a:collection-missed:"+mutClass,
+					fmt.Sprintf("EachCollection returned nil but never handed %d of the %d collections that existed throughout the scan to the callback (first: %s, %s, %s); N=%d page=%d server_max=%d max_tie=%d mutations=%d",
+						len(missed), len(required), strings.TrimSuffix(u, pad), tie, modS, c.N, c.PageSize, c.ServerMax, c.MaxTie, len(muts)), witness(missed))
+				run.Count("a_missed:"+tie+":"+modS, 1)
 			}
 			run.Count("a_scans_completed", 1)
 		default:
@@ -1115,7 +1116,7 @@ func c06NewWorld(t *testing.T, rng *verifkit.Rand) (*c06World, c06StopCase) {
 	garbage := newBlk() // unreferenced, old                   ⇒ trash request
 	fresh := newBlk()   // unreferenced, new                   ⇒ nothing
 	var fine []blk      // wanted once, stored once
-	for i := rng.Range(1, 4); i > 0; i-- {
+	for i := rng.Range(2, 4); i > 0; i-- {
 		fine = append(fine, newBlk())
 	}
 
